@@ -220,7 +220,13 @@ pub fn run_c02r(ctx: &mut Ctx, from: u64, to: u64) {
     for k in from..to {
         ctx.begin_case(k);
         let mut rng = Rng::new(case_seed(ctx.seed, "C02r", k));
-        let n = if rng.chance(1, 20) { rng.urange(61, 400) } else { rng.urange(1, 60) };
+        let n = if ctx.tiny {
+            rng.urange(1, 12)
+        } else if rng.chance(1, 20) {
+            rng.urange(61, 400)
+        } else {
+            rng.urange(1, 60)
+        };
         let kind = rng.below(4);
         let chars = c02_text(kind, n, &mut rng);
         let dist: [u32; 3] = *rng.pick(&[[10, 10, 2], [10, 10, 10], [10, 10, 30], [20, 1, 3], [6, 1, 6], [1, 10, 5]]);
